@@ -14,7 +14,8 @@
      extra : [kind : "none" | "go" | "vs", atomtypes : Seq(STRING), atparams : Seq(Seq(STRING)) (the other columns),
               nbparams : Seq(<<type, type>>), nbvalues : Seq(Seq(STRING)) (the other columns), malformed : Seq(STRING)]
              the [ atomtypes ] / [ nonbond_params ] files of a Go-model or water-bias run (go_ resp. virtual_sites_ prefix)
-     opt   : [judged, go, sep : BOOLEAN, molname : STRING, chains : Seq(STRING), merge : Seq(Seq(STRING)), all : BOOLEAN]
+     opt   : [judged, go, sep, callernamed : BOOLEAN, molname : STRING, chains : Seq(STRING), merge : Seq(Seq(STRING)),
+              all : BOOLEAN]
              what the command line was asked for (judged = FALSE: library run, no option clause applies)
      rb    : <<>> or <<[pdb, gro, itps]>>   the written files READ BACK by the repository's own readers
              (vermouth.pdb.read_pdb, vermouth.gmx.gro.read_gro, vermouth.gmx.itp_read.read_itp), projected field by field:
@@ -200,8 +201,10 @@ Hist(e) ==
      ELSE IF \E i, j \in dd : Shared(e.hist[i]) # Shared(e.hist[j]) THEN "history:which-molecules-share-a-type-depends-on-their-order"
      ELSE ""
 
-(* a caller may name the molecule types himself; if his names cannot be honoured (one name, different topologies) the
-   only way to keep the statement is to refuse to write *)
+(* A caller may name the molecule types himself (meta 'moltype' set by hand, NameMolType not run).  The statement speaks
+   about the names the LIBRARY gives; one name on different topologies is then a broken precondition of the writer, which
+   documents that it writes the first molecule: such a run is an OBSERVATION (counted), a refusal would be accepted too;
+   a refusal of consistent names is not.  The same clash among names NameMolType gave is the violation. *)
 Clash(e) == \E i, j \in DOMAIN e.names : e.names[i] = e.names[j] /\ NoName(e.own[i]) # NoName(e.own[j])
 
 RECURSIVE JoinStr(_)
@@ -210,7 +213,8 @@ Join(parts) == LET bad == SelectSeq(parts, LAMBDA s : s # "") IN IF bad = <<>> T
 
 Judge(e) ==
   IF e.refused THEN (IF Clash(e) THEN "ok" ELSE "writer-refused-a-system-whose-names-are-consistent")
-  ELSE IF Clash(e) THEN "same-name-for-molecules-with-different-topologies"
+  ELSE IF Clash(e) THEN (IF e.opt.callernamed THEN "observation:caller-named-clash-not-refused"
+                         ELSE "same-name-for-molecules-with-different-topologies")
   ELSE LET s == Structure(e)
        IN IF s # "" THEN s
           ELSE Join(<<Core(e), Extra(e), Option(e), ReadBack(e), Again(e), Hist(e), Gro(e)>>)
